@@ -349,6 +349,8 @@ fn run_with<S: Settings>(scn: &Scenario, settings: S) {
                 let open = log_len();
                 if paused {
                     log_event(Event::WindowOpen);
+                    let snap: Vec<(usize, u64)> = crate::model::LOG.with(|l| l.borrow().chain_evals.iter().map(|(k, v)| (*k, *v)).collect());
+                    log_event(Event::EvalSnapshot(snap));
                 }
                 sleep_until_quiescent();
                 if paused {
